@@ -204,7 +204,9 @@ fn random_string(r: &mut Rng) -> String {
             2 => r.range(0x800, 0xd7ff) as u32,
             3 => r.range(0xe000, 0xffff) as u32,
             4 => r.range(0x10000, 0x10ffff) as u32,
-            _ => *r.pick(&[0u32, 0x7f, 0x80, 0x7ff, 0x800, 0xffff, 0x10000, 0x10ffff, 0x1f601]),
+            // boundaries of the UTF-8 lengths and code points with a meaning to text processing
+            // (byte-order mark and its mirror, non-characters, separators, bidi / joiner controls, combining marks)
+            _ => *r.pick(&[0u32, 0x7f, 0x80, 0x7ff, 0x800, 0xffff, 0x10000, 0x10ffff, 0x1f601, 0xfeff, 0xfffe, 0xfffd, 0x2028, 0x2029, 0x85, 0xa0, 0x200b, 0x200d, 0x200e, 0x202e, 0x301, 0xe0001, 0xfdd0, 0x9, 0xa, 0xd]),
         };
         if let Some(ch) = char::from_u32(c) {
             s.push(ch);
@@ -233,10 +235,46 @@ const BAD_UTF8: &[&[u8]] = &[
     &[0x61, 0xc2],
 ];
 
+/// every "special" code point at the start, in the middle and at the end of a short string
+fn special_strings() -> Vec<String> {
+    let specials = [0u32, 0x7f, 0x80, 0x7ff, 0x800, 0xffff, 0x10000, 0x10ffff, 0xfeff, 0xfffe, 0xfffd, 0x2028, 0x2029, 0x85, 0xa0, 0x3000, 0x200b, 0x200d, 0x200e, 0x202e, 0x301, 0xe0001, 0xfdd0, 0x9, 0xa, 0xd, 0x20, 0x22, 0x5c];
+    let mut out = Vec::new();
+    for c in specials {
+        let ch = match char::from_u32(c) {
+            Some(x) => x,
+            None => continue,
+        };
+        out.push(ch.to_string());
+        out.push(format!("{}sensors", ch));
+        out.push(format!("sens{}ors", ch));
+        out.push(format!("sensors{}", ch));
+        out.push(format!("{}{}", ch, ch));
+        out.push(format!("{}é{}", ch, ch));
+    }
+    out
+}
+
 fn c06_strings(rep: &mut Report, r: &mut Rng, budget: u64) {
-    for _ in 0..budget.min(200_000) {
+    let specials = special_strings();
+    for i in 0..budget.min(200_000) + specials.len() as u64 {
         rep.eval();
-        let s = random_string(r);
+        let s = if (i as usize) < specials.len() { specials[i as usize].clone() } else { random_string(r) };
+        // through the typed accessors of a message as well (first value, list, path view)
+        if i % 4 == 0 || (i as usize) < specials.len() {
+            let res = guard(|| {
+                let mut p = crate::ctx::context_packet();
+                p.add_option_as(CoapOption::UriPath, OptionValueString(s.clone()));
+                p.add_option_as(CoapOption::UriPath, OptionValueString("tail".into()));
+                let first = p.get_first_option_as::<OptionValueString>(CoapOption::UriPath).map(|x| x.map(|v| v.0).map_err(|_| ()));
+                let all: Option<Vec<Result<String, ()>>> = p.get_options_as::<OptionValueString>(CoapOption::UriPath).map(|l| l.into_iter().map(|x| x.map(|v| v.0).map_err(|_| ())).collect());
+                let rq = coap_lite::CoapRequest::from_packet(p, 1u8);
+                (first, all, rq.get_path_as_vec().map_err(|_| ()))
+            });
+            match res {
+                Ok((Some(Ok(f)), Some(all), Ok(pv))) if f == s && all == vec![Ok(s.clone()), Ok("tail".to_string())] && pv == vec![s.clone(), "tail".to_string()] => rep.count("string_through_message_accessors"),
+                other => rep.violation("string-accessor", format!("{:?} stored as a Uri-Path value comes back as {:?}", s, other.map_err(|p| p.text())), format!("{:?}", s)),
+            }
+        }
         let enc = Vec::<u8>::from(OptionValueString(s.clone()));
         if enc != s.as_bytes() {
             rep.violation("string-encode", format!("{:?} encodes to {}", s, hex(&enc)), format!("{:?}", s));
